@@ -19,7 +19,7 @@ CLAIMED = {
                 assumptions=COMMON_E1),
     "C03": dict(engines=["E2", "E1"], scope="acceptance half: cddl.pest (as optimised by pest_meta) accepts exactly the strings derivable from the RFC 8610/9682 ABNF, for every string up to the length bound and every template hole; AST shape is outside the claim; plus (E1) the control-name table agrees with the operator printer",
                 assumptions=[]),
-    "C05": dict(engines=["E1"], scope="panic/overflow/out-of-bounds freedom of the byte-level kernels for all in-bound inputs, allocation from wire lengths, error-position arithmetic; validator-level panics, stack depth and time bounds are outside the claim",
+    "C05": dict(engines=["E1"], scope="panic/overflow/out-of-bounds freedom of the byte-level kernels for all in-bound inputs, allocation from wire lengths (definite heads), error-position arithmetic, and the index/shift arithmetic of `bstr .bits N` in the CBOR validator's visit_value for every N; indefinite-length items, every other validator-level panic, stack depth and time bounds are outside the claim",
                 assumptions=COMMON_E1),
     "C06": dict(engines=["E1"], scope="literal rendering only (text, h'..', b64'..', small integers) composed with the real literal decoders; document-level round trips are outside the claim",
                 assumptions=COMMON_E1),
